@@ -9,11 +9,11 @@ from vt import worlds
 
 ID = 'C15'
 LEVEL = 'exploration'
-RULE = ('trees = every subset of <=K entries of a 23-entry menu (sources, '
+RULE = ('trees = every subset of <=K entries of a 29-entry menu (sources, directories nested inside __pycache__ and ignored directories, '
         'orphaned and non-orphaned .pyc/.pyo, look-alike names, __pycache__, '
         'ignored and non-identifier directories, a sub package) materialised '
         'on tmpfs x option vectors (-k, --usecompiled, --path/--test-path, two '
-        'overlapping search paths, --ignore_dir sub); the real runner is run '
+        'overlapping search paths, two sibling search paths one of which is a string prefix of the other (3 spellings), --ignore_dir sub); the real runner is run '
         'with --list-tests and the file system is diffed (path, size, sha256, '
         'mtime): must-delete <= deleted <= may-delete, everything else '
         'identical, nothing created. non-trivial = tree has >=1 compiled file')
@@ -21,8 +21,8 @@ ASSUMPTIONS = [
     'orphans in directories the clean-up walk reaches but discovery does not (node_modules, non-identifier names) and the bare names ".pyc"/".pyo" may or may not be deleted - the statement does not settle them',
     'symlinks are outside the stated quantifier and outside the alphabet',
 ]
-BOUND = {'quick': 'K<=4 of 23 entries x 10 option vectors (3 of them with layer subprocesses)',
-         'thorough': 'K<=6 x 10 option vectors'}
+BOUND = {'quick': 'K<=3 of 29 entries and K=4 of the 12 flat names x 13 option vectors (3 of them with layer subprocesses)',
+         'thorough': 'K<=5 of 29 entries and K=6 of the 12 flat names x 13 option vectors'}
 CHUNK = 64
 
 MENU = ['x.py', 'x.pyc', 'x.pyo', 'y.pyc', 'z.pyo', '.pyc', 'pyc', 'X.PYC',
@@ -30,7 +30,13 @@ MENU = ['x.py', 'x.pyc', 'x.pyo', 'y.pyc', 'z.pyo', '.pyc', 'pyc', 'X.PYC',
         '__pycache__/q.cpython-312.pyc', '__pycache__/orphan.pyc',
         '.git/g.pyc', 'CVS/c.pyc', 'node_modules/n.pyc', 'foo-bar/h.pyc',
         'sub/s.pyc', 'sub/t.py', 'sub/t.pyc', 'sub/__pycache__/v.pyc',
-        'sub/deep/d.pyo']
+        'sub/deep/d.pyo',
+        # directories *inside* a __pycache__ / an ignored directory, and a
+        # sibling directory whose path starts with another search path
+        '__pycache__/nest/n.pyc', 'sub/__pycache__/deep/m.pyo',
+        '.git/inner/i.pyc', 'sub_compat/c.pyc', 'sub_compat/c2.py',
+        'sub_compat/c2.pyc']
+CORE = 12        # the flat names at the front of the menu
 OPTS = {
     'path': lambda r: ['--path', r],
     'test-path': lambda r: ['--test-path', r],
@@ -44,7 +50,13 @@ OPTS = {
     'j2': lambda r: ['--path', r, '-j2'],
     'k+j2': lambda r: ['--path', r, '-k', '-j2'],
     'usecompiled+resumed': lambda r: ['--path', r, '--usecompiled'],
+    # two sibling search paths, one a string prefix of the other
+    'siblings': lambda r: ['--test-path', os.path.join(r, 'sub'), '--test-path', os.path.join(r, 'sub_compat')],
+    'siblings_rev': lambda r: ['--path', os.path.join(r, 'sub_compat'), '--path', os.path.join(r, 'sub')],
+    'siblings_mixed': lambda r: ['--path', os.path.join(r, 'sub_compat'), '--test-path', os.path.join(r, 'sub')],
 }
+SEARCHED = {'siblings': ('sub/', 'sub_compat/'), 'siblings_rev': ('sub/', 'sub_compat/'),
+            'siblings_mixed': ('sub/', 'sub_compat/')}
 CHILD_WORLD = {
     'layers': [{'n': 'A', 'b': [], 'k': 'c', 'h': ['setUp', 'tearDown'],
                 'f': {'tearDown': 'NIE'}},
@@ -55,10 +67,13 @@ IGNORED = {'.git', '.svn', 'CVS', '{arch}', '.arch-ids', '_darcs'}
 
 
 def cases(tier, seed):
-    K = 4 if tier == 'quick' else 6
     idx = list(range(len(MENU)))
-    for k in range(0, K + 1):
-        for combo in itertools.combinations(idx, k):
+    if tier == 'quick':
+        plan = [(k, idx) for k in range(0, 4)] + [(4, idx[:CORE])]
+    else:
+        plan = [(k, idx) for k in range(0, 6)] + [(6, idx[:CORE])]
+    for k, pool in plan:
+        for combo in itertools.combinations(pool, k):
             for ok in worlds.rot(list(OPTS), seed):
                 yield [list(combo), ok]
 
@@ -95,6 +110,8 @@ def classify(entries, ok):
         d, base = os.path.split(e)
         if not (base.endswith('.pyc') or base.endswith('.pyo')):
             continue
+        if ok in SEARCHED and not e.startswith(SEARCHED[ok]):
+            continue
         parts = d.split('/') if d else []
         if '__pycache__' in parts or any(p in IGNORED for p in parts):
             continue
@@ -119,6 +136,7 @@ def run_case(case):
     root = os.path.join(ROOT, 'r')
     env.rmtree(root)
     os.makedirs(os.path.join(root, 'sub'))     # search paths must exist
+    os.makedirs(os.path.join(root, 'sub_compat'))
     for e in entries:
         p = os.path.join(root, e)
         os.makedirs(os.path.dirname(p), exist_ok=True)
